@@ -27,11 +27,11 @@ int main(void) {
   { double t = bc_i64_f(b); ASSUME(t == (double)(int64_t)t && t > -1e15 && t < 1e15); }
 #endif
   double v = bc_i64_f(b);
-  Stream out; memset(&out, 0, sizeof out); out.f1 = buf; out.f2 = buf; out.f3 = BUF;
+  Stream out = {0}; out.f1 = buf; out.f2 = buf; out.f3 = BUF;
   W_REAL(&out, v);
   uint64_t written = (uint64_t)(out.f2 - buf);
   CHECK(written >= 2 && written <= 11, "writer emitted type byte + payload");
-  Stream in; memset(&in, 0, sizeof in); in.f1 = buf; in.f2 = buf; in.f3 = BUF;
+  Stream in = {0}; in.f1 = buf; in.f2 = buf; in.f3 = BUF;
   double d = R_REAL(&in); uint64_t db = bc_f_i64(d);
   OBS("type", buf[0]); OBS("d", db); OBS("len", written);
   CHECK(in.f7 == 0, "no error flag");
@@ -47,7 +47,7 @@ int main(void) {
 #else
   for (int i = 0; i < 8; i++) buf[i] = nd_u8();
 #endif
-  Stream in; memset(&in, 0, sizeof in); in.f1 = buf; in.f2 = buf; in.f3 = BUF;
+  Stream in = {0}; in.f1 = buf; in.f2 = buf; in.f3 = BUF;
   double d = R_REAL_T(&in, TYPE); uint64_t db = bc_f_i64(d);
   int pos = 0; double e;
 #if TYPE == 0
